@@ -6,6 +6,9 @@ is executed for EVERY h in the event menu^{<=2} (events touch the global numpy /
 numqi generator unseeded, or call the same function with seed+1).  The entropy seam (mc.seams.EntropySeam) owns every
 unseeded generator construction: it answers stream e0 during the first call and e1 during the second, and any hit inside a
 seeded call is a violation by itself.  Returned objects are checked with independent validity predicates.
+
+Further case kinds: f2stub / ballstub / cliffstub (generator answers enumerated with stub generators) and interleave (two live objects
+that own a generator, all interleavings of their uses).
 """
 import itertools
 import random
@@ -18,11 +21,23 @@ PROPERTY = 'C10'
 LEVEL = 'model_checking'
 RULE = ('state = (function, option branch, seed, intervening RNG-use history); all histories of length <= 2 over the event menu are '
         'enumerated for every branch and seed; transition = one seeded call compared bit-for-bit with the first call and checked '
-        'with the validity predicate of the advertised set; non-trivial = distinct (branch, seed) outputs')
+        'with the validity predicate of the advertised set; non-trivial = distinct (branch, seed) outputs. '
+        'Audit wave: every API with a seed parameter is a branch (check_model_gradient, find_optimal_UD, AutodiffCHAREE.get_boundary / '
+        'get_numerical_range, PureBosonicExt.get_numerical_range, MeasureGate built directly); boundary values (batch of one, num_sample=1, '
+        'size=() / 0, rand_F2() without a size, k > dim, degenerate eigenvalue range, maximal num_hermite) with cross-option oracles (same seed, '
+        'other option value: identical draws); seed forms int / np.int64 / 2**70+3; a Generator as seed for every branch incl. the heavy ones; '
+        'a seeded call that re-seeds the global torch generator is a violation (advancing it is counted); two live generator-owning objects '
+        '(MeasureGate, CliffordCircuit) under all 20 interleavings of 3+3 uses; the normal()/uniform() answers of rand_n_sphere / rand_n_ball and '
+        'the integer answers of CliffordCircuit.random_*_gate are enumerated with stub generators')
 ASSUMPTIONS = [
     'entropy seam: np.random.default_rng()/default_rng(None) and random.Random() are wrapped from outside; other entropy sources (os.urandom read directly) would not be seen',
     'bit-identical comparison of numpy buffers; floating point determinism of single-threaded BLAS for identical inputs',
     'validity tolerances: 1e-9 absolute on float64 identities of O(1) objects (ranks counted with 1e-9 relative threshold)',
+    'stubbed sphere / ball points: 8 eps relative per component (norm, division, pow, product; dim <= 3)',
+    'global torch generator: torch.manual_seed / torch.seed / torch.set_rng_state (and their torch.random aliases) are wrapped during a seeded call; '
+    'a generator re-seeded through another entry point would only be seen as an advanced state (counted, not reported); constructors of torch models '
+    '(no seed parameter) draw initial parameters from the global torch generator - observed after construction only',
+    'light (boundary-value) branches run with histories of length <= 1 in the quick tier and the full menu in the thorough tier',
 ]
 SEEDS = [0, 1, 7]
 
@@ -176,11 +191,13 @@ def is_ppt(rho, dA, dB):
 
 # ------------------------------------------------------------------------------------------------ branch table
 def branches():
-    """list of (name, branch-label, fn(nq, seed) -> object, validity(obj) -> list of failures, heavy flag)"""
+    """list of (name, branch-label, fn(nq, seed) -> object, validity(obj) -> list of failures, heavy flag,
+    cross(nq, seed, obj) -> list of failures or None: validity that needs a second call with the same seed and another option value)"""
     B = []
 
-    def add(name, label, fn, valid, heavy=False):
-        B.append((name, label, fn, valid, heavy))
+    def add(name, label, fn, valid, heavy=False, cross=None, light=False):
+        # light: boundary-value branch of the audit wave; quick tier runs it with histories of length <= 1 (thorough: the full menu)
+        B.append((name, label, fn, valid, heavy, cross, light))
 
     for dim in (1, 2, 5):
         for tc in (True, False):
@@ -189,8 +206,12 @@ def branches():
     for dim in (1, 2, 4):
         add('rand_haar_unitary', 'dim=%d' % dim, lambda nq, s, dim=dim: nq.random.rand_haar_unitary(dim, seed=s), lambda x: v_unitary(x))
     for dim in (2, 3):
-        for bs in (None, 3):
+        for bs in (None, 3, 1):
             for tc in (False, True):
+                def cross_bs1(nq, s, x, dim=dim, tc=tc):
+                    y = nq.random.rand_special_orthogonal_matrix(dim, batch_size=None, tag_complex=tc, seed=s)
+                    return [] if (x.shape == (1,) + y.shape and np.array_equal(x[0], y)) else ['batch of one differs from the single matrix (batch_size=None) of the same seed']
+
                 def val(x, dim=dim, bs=bs, tc=tc):
                     xs = [x] if bs is None else list(x)
                     f = []
@@ -200,13 +221,14 @@ def branches():
                         f += v_unitary(u, special=True, real=not tc)
                     return f
                 add('rand_special_orthogonal_matrix', 'dim=%d,batch=%s,tag_complex=%s' % (dim, bs, tc),
-                    lambda nq, s, dim=dim, bs=bs, tc=tc: nq.random.rand_special_orthogonal_matrix(dim, batch_size=bs, tag_complex=tc, seed=s), val)
+                    lambda nq, s, dim=dim, bs=bs, tc=tc: nq.random.rand_special_orthogonal_matrix(dim, batch_size=bs, tag_complex=tc, seed=s), val,
+                    cross=cross_bs1 if bs == 1 else None, light=bs == 1)
     for dim in (2, 3):
-        for k in (None, 1, 2):
+        for k in (None, 1, 2, 4):   # k=4 > dim: the rank saturates at dim
             for kind in ('haar', 'bures'):
                 add('rand_density_matrix', 'dim=%d,k=%s,kind=%s' % (dim, k, kind),
                     lambda nq, s, dim=dim, k=k, kind=kind: nq.random.rand_density_matrix(dim, k=k, kind=kind, seed=s),
-                    lambda x, dim=dim, k=k: v_dm(x, dim, dim if k is None else k))
+                    lambda x, dim=dim, k=k: v_dm(x, dim, dim if k is None else min(k, dim)), light=k == 4)
     for (nt, di, do) in ((1, 2, 2), (2, 2, 2), (4, 2, 3), (2, 3, 2), (3, 1, 2), (1, 2, 3)):
         for tc in (True, False):
             add('rand_kraus_op', 'num_term=%d,dim_in=%d,dim_out=%d,tag_complex=%s' % (nt, di, do, tc),
@@ -252,7 +274,7 @@ def branches():
                 add('rand_separable_dm', 'dimA=%d,dimB=%s,k=%d,pure_term=%s' % (dA, dB, k, pt),
                     lambda nq, s, dA=dA, dB=dB, k=k, pt=pt: nq.random.rand_separable_dm(dA, dB, k=k, seed=s, pure_term=pt), val)
     for d in (2, 3):
-        for eig in (None, (-1.0, 2.0)):
+        for eig in (None, (-1.0, 2.0), (0.5, 0.5)):   # degenerate range: the only admissible matrix is 0.5*identity
             for tc in (True, False):
                 def val(x, d=d, eig=eig, tc=tc):
                     f = []
@@ -268,7 +290,7 @@ def branches():
                             f.append('eigenvalues %s outside %s' % (ev, eig))
                     return f
                 add('rand_hermitian_matrix', 'd=%d,eig=%s,tag_complex=%s' % (d, eig, tc),
-                    lambda nq, s, d=d, eig=eig, tc=tc: nq.random.rand_hermitian_matrix(d, eig=eig, tag_complex=tc, seed=s), val)
+                    lambda nq, s, d=d, eig=eig, tc=tc: nq.random.rand_hermitian_matrix(d, eig=eig, tag_complex=tc, seed=s), val, light=eig == (0.5, 0.5))
     for (di, nt) in ((2, 1), (2, 3), (3, 4)):
         def val(x, di=di, nt=nt):
             f = []
@@ -280,7 +302,7 @@ def branches():
                 f.append('first element is not the identity')
             return f
         add('rand_channel_matrix_space', 'dim_in=%d,num_term=%d' % (di, nt), lambda nq, s, di=di, nt=nt: nq.random.rand_channel_matrix_space(di, nt, seed=s), val)
-    for (di, nh) in ((2, 1), (2, 3), (3, 5), (3, (2, 1)), (3, (1, 0)), (3, (3, 1))):
+    for (di, nh) in ((2, 1), (2, 3), (3, 5), (3, (2, 1)), (3, (1, 0)), (3, (3, 1)), (2, 4), (3, 9), (3, (6, 3))):   # last three: the maxima of num_hermite
         def val(x, di=di, nh=nh):
             f = []
             n = nh if isinstance(nh, int) else sum(nh)
@@ -302,7 +324,7 @@ def branches():
                 f.append('elements linearly dependent')
             return f
         add('rand_quantum_channel_matrix_subspace', 'dim_in=%d,num_hermite=%s' % (di, nh),
-            lambda nq, s, di=di, nh=nh: nq.random.rand_quantum_channel_matrix_subspace(di, nh, seed=s), val)
+            lambda nq, s, di=di, nh=nh: nq.random.rand_quantum_channel_matrix_subspace(di, nh, seed=s), val, light=(di, nh) in ((2, 4), (3, 9), (3, (6, 3))))
     for (dA, dB, k) in ((2, 2, 1), (2, 2, 2), (2, 2, 3), (3, 2, 2)):
         def val(x, dA=dA, dB=dB, k=k):
             N = dA * dB**k
@@ -338,8 +360,25 @@ def branches():
                         if np.abs(blk[:, ~mask]).max() > 1e-9:
                             f.append('not block diagonal in the returned basis')
                 return f
+            def cross(nq, s, x, nm=nm, part=part):
+                # return_unitary only selects what is returned: the same seed gives the identical subspace, and that subspace is
+                # block diagonal (blocks = partition) in the basis returned by the return_unitary=True call
+                ms2, u = nq.random.rand_reducible_matrix_subspace(nm, part, return_unitary=True, seed=s)
+                if not (isinstance(x, np.ndarray) and x.shape == ms2.shape and np.array_equal(x, ms2)):
+                    return ['subspace differs from the return_unitary=True call with the same seed']
+                f = v_unitary(u, special=True, real=True)
+                blk = u @ x @ u.T
+                mask = np.zeros(blk.shape[1:], dtype=bool)
+                o = 0
+                for p_ in part:
+                    mask[o:o + p_, o:o + p_] = True
+                    o += p_
+                if np.abs(blk[:, ~mask]).max() > 1e-9:
+                    f.append('not block diagonal under the unitary of the same seed')
+                return f
             add('rand_reducible_matrix_subspace', 'num_matrix=%d,partition=%s,return_unitary=%s' % (nm, part, ru),
-                lambda nq, s, nm=nm, part=part, ru=ru: nq.random.rand_reducible_matrix_subspace(nm, part, return_unitary=ru, seed=s), val)
+                lambda nq, s, nm=nm, part=part, ru=ru: nq.random.rand_reducible_matrix_subspace(nm, part, return_unitary=ru, seed=s), val,
+                cross=None if ru else cross)
     for N0 in (2, 3):
         def val(x, N0=N0):
             B_, U = x
@@ -360,8 +399,14 @@ def branches():
                         return f
             return f
         add('rand_symmetric_inner_product', 'N0=%d' % N0, lambda nq, s, N0=N0: nq.random.rand_symmetric_inner_product(N0, seed=s), val)
-    for (no, dq, nqd, ns, wi) in ((2, 2, 1, None, False), (3, 2, 1, 2, True), (2, 3, 1, None, True), (2, 2, 2, None, False)):
+    for (no, dq, nqd, ns, wi) in ((2, 2, 1, None, False), (3, 2, 1, 2, True), (2, 3, 1, None, True), (2, 2, 2, None, False), (2, 2, 1, 1, False), (3, 2, 1, 1, True)):
+        def cross_ns1(nq, s, x, no=no, dq=dq, nqd=nqd, wi=wi):
+            y = nq.random.rand_orthonormal_matrix_basis(no, dq, nqd, None, wi, seed=s)
+            return [] if (isinstance(x, list) and len(x) == 1 and isinstance(y, np.ndarray) and np.array_equal(x[0], y)) else ['num_sample=1 is not the one-element list of the num_sample=None result of the same seed']
+
         def val(x, no=no, dq=dq, nqd=nqd, ns=ns, wi=wi):
+            if (ns is None) != isinstance(x, np.ndarray):
+                return ['container type %s for num_sample=%s' % (type(x).__name__, ns)]
             xs = [x] if ns is None else list(x)
             D = dq**nqd
             f = []
@@ -382,7 +427,7 @@ def branches():
                             return f
             return f
         add('rand_orthonormal_matrix_basis', 'num_orthonormal=%d,dim_qudit=%d,num_qudit=%d,num_sample=%s,with_I=%s' % (no, dq, nqd, ns, wi),
-            lambda nq, s, no=no, dq=dq, nqd=nqd, ns=ns, wi=wi: nq.random.rand_orthonormal_matrix_basis(no, dq, nqd, ns, wi, seed=s), val)
+            lambda nq, s, no=no, dq=dq, nqd=nqd, ns=ns, wi=wi: nq.random.rand_orthonormal_matrix_basis(no, dq, nqd, ns, wi, seed=s), val, cross=cross_ns1 if ns == 1 else None, light=ns == 1)
     for dim in (2, 5):
         def val(x, dim=dim):
             f = []
@@ -393,15 +438,21 @@ def branches():
             return f
         add('rand_adjacent_matrix', 'dim=%d' % dim, lambda nq, s, dim=dim: nq.random.rand_adjacent_matrix(dim, seed=s), val)
     for dim in (1, 3):
-        for size in (None, 3, (2, 2)):
+        for size in (None, 3, (2, 2), (), 0):   # size=(): documented shape size+(dim,) = (dim,); size=0: an empty batch of shape (0, dim)
             shp = (dim,) if size is None else ((size,) if isinstance(size, int) else tuple(size)) + (dim,)
+
+            def cross_unit(nq, s, x, dim=dim, which='rand_n_sphere'):
+                y = getattr(nq.random, which)(dim, size=None, seed=s)
+                return [] if np.array_equal(x, y) else ['size=() differs from size=None with the same seed']
             add('rand_n_sphere', 'dim=%d,size=%s' % (dim, size), lambda nq, s, dim=dim, size=size: nq.random.rand_n_sphere(dim, size=size, seed=s),
-                lambda x, shp=shp: (['shape %s != %s' % (x.shape, shp)] if x.shape != shp else []) + ([] if np.abs(np.linalg.norm(x, axis=-1) - 1).max() < TOL else ['not on the sphere']))
+                lambda x, shp=shp: (['shape %s != %s' % (x.shape, shp)] if x.shape != shp else []) + ([] if (x.size == 0 or np.abs(np.linalg.norm(x, axis=-1) - 1).max() < TOL) else ['not on the sphere']),
+                cross=cross_unit if size == () else None, light=size in ((), 0))
             add('rand_n_ball', 'dim=%d,size=%s' % (dim, size), lambda nq, s, dim=dim, size=size: nq.random.rand_n_ball(dim, size=size, seed=s),
-                lambda x, shp=shp: (['shape %s != %s' % (x.shape, shp)] if x.shape != shp else []) + ([] if np.linalg.norm(x, axis=-1).max() <= 1 else ['outside the ball']))
-    for size in ((3,), (2, 2), (1,)):
+                lambda x, shp=shp: (['shape %s != %s' % (x.shape, shp)] if x.shape != shp else []) + ([] if (x.size == 0 or np.linalg.norm(x, axis=-1).max() <= 1) else ['outside the ball']),
+                cross=(lambda nq, s, x, dim=dim: cross_unit(nq, s, x, dim=dim, which='rand_n_ball')) if size == () else None, light=size in ((), 0))
+    for size in ((3,), (2, 2), (1,), ()):   # (): rand_F2() without a size returns a 0-d array; both flags on one bit: recorded rejection
         for nz, no_ in ((False, False), (True, False), (False, True), (True, True)):
-            if nz and no_ and int(np.prod(size)) <= 1:
+            if nz and no_ and int(np.prod(size)) <= 1 and size != ():
                 continue
             def val(x, size=size, nz=nz, no_=no_):
                 f = []
@@ -412,7 +463,7 @@ def branches():
                 if no_ and x.all():
                     f.append('all one despite not_one')
                 return f
-            add('rand_F2', 'size=%s,not_zero=%s,not_one=%s' % (size, nz, no_), lambda nq, s, size=size, nz=nz, no_=no_: nq.random.rand_F2(*size, not_zero=nz, not_one=no_, seed=s), val)
+            add('rand_F2', 'size=%s,not_zero=%s,not_one=%s' % (size, nz, no_), lambda nq, s, size=size, nz=nz, no_=no_: nq.random.rand_F2(*size, not_zero=nz, not_one=no_, seed=s), val, light=size == ())
     for n in (1, 2, 3):
         for rk in ('matrix', 'int_tuple', 'int_tuple-matrix'):
             def val(x, n=n, rk=rk):
@@ -497,7 +548,17 @@ def branches():
         c.random_two_qubit_gate(0, 1)
         c.random_two_qubit_gate(2, 1)
         return [tuple(g) for g in c.gate_index_list]
-    add('CliffordCircuit.random_gates', 'seeded', cliff, lambda x: [] if all(g[0] in ('X', 'Y', 'Z', 'H', 'S', 'CX', 'CY', 'CZ') for g in x) else ['bad gate'])
+    def v_cliff(x):
+        f = [] if all(g[0] in ('X', 'Y', 'Z', 'H', 'S', 'CX', 'CY', 'CZ') for g in x) else ['bad gate']
+        # qubit indices: the two-qubit gates are always recorded, in order, on the requested (control, target); the one-qubit records
+        # (the identity records nothing) are a subsequence of the requested qubits 0,1,0,2
+        two = [g for g in x if len(g) == 3]
+        one = [g[1] for g in x if len(g) == 2]
+        it = iter([0, 1, 0, 2])
+        if [tuple(g[1:]) for g in two] != [(0, 1), (2, 1)] or x[len(x) - 2:] != two or not all(any(q == r for r in it) for q in one):
+            f.append('recorded qubit indices %s do not match the requested ones' % (x,))
+        return f
+    add('CliffordCircuit.random_gates', 'seeded', cliff, v_cliff)
 
     rho3 = np.diag([0.5, 0.3, 0.2]).astype(np.complex128)
     rho3[0, 1] = rho3[1, 0] = 0.1
@@ -580,9 +641,104 @@ def branches():
 
     def pureb_boundary(nq, s):
         m = nq.entangle.PureBosonicExt(2, 2, 2, distance_kind='gellmann')
+        mark_torch()
         return float(m.get_boundary(dm_iso, xtol=0.05, converge_tol=1e-6, num_repeat=1, use_tqdm=False, seed=s))
     add('PureBosonicExt.get_boundary', 'dims=(2,2),k=2,xtol=0.05', pureb_boundary, lambda x: [] if (np.isfinite(x) and x > 0) else ['non-positive boundary'], heavy=True)
+
+    # ---------------- audit wave: the remaining APIs with a seed parameter (tiny budgets)
+    def model_gradient(nq, s):
+        m = _model(nq)
+        try:
+            nq.optimize.check_model_gradient(m, tol=1e-5, zero_eps=1e-4, seed=s)   # |f'''| <= 24*2pi+27: central difference error < 4e-7
+            verdict = 'passed'
+        except AssertionError:
+            verdict = 'AssertionError'
+        return (verdict, nq.optimize.get_model_flat_parameter(m), nq.optimize.get_model_flat_grad(m))
+    add('optimize.check_model_gradient', 'quartic+sin', model_gradient,
+        lambda x: ([] if x[0] == 'passed' else ['a correct autograd gradient was rejected']) + ([] if np.all(np.isfinite(x[1])) and np.all((x[1] > -1e-3) & (x[1] < 2 * np.pi + 1e-3)) else ['evaluation point outside [0, 2pi]']), heavy=True)
+
+    for nis in (0, 1):
+        def find_ud(nq, s, nis=nis):
+            r = nq.unique_determine.find_optimal_UD('udp', 2, ops_ud, num_repeat=1, num_init_sample=nis, dtype='float64', seed=s)
+            return [list(x) for x in r]
+        add('find_optimal_UD', 'pauli,udp,num_round=2,num_init_sample=%d' % nis, find_ud,
+            lambda x: [] if all(sorted(set(y)) == list(y) and set(y) <= {0, 1, 2, 3} for y in x) and len(x) <= 2 else ['not a list of ascending index lists'], heavy=True)
+
+    op_xx = np.kron(np.array([[0, 1], [1, 0.]]), np.array([[0, 1], [1, 0.]]))
+    op_zz = np.diag([1., -1, -1, 1])
+
+    def v_numrange(x):
+        # <XX>, <ZZ> of a two-qubit state lie in [-1, 1]; three directions requested
+        return [] if (x.shape == (3, 2) and np.all(np.isfinite(x)) and np.abs(x).max() <= 1 + 1e-9) else ['not three points of the joint numerical range box']
+
+    def charee_boundary(nq, s):
+        m = nq.entangle.AutodiffCHAREE((2, 2), num_state=3, distance_kind='gellmann')
+        mark_torch()
+        beta, info = m.get_boundary(dm_iso, xtol=0.2, converge_tol=1e-4, num_repeat=1, use_tqdm=False, return_info=True, seed=s)
+        return (float(beta), np.asarray(info, dtype=np.float64))
+    add('AutodiffCHAREE.get_boundary', 'dims=(2,2),num_state=3,xtol=0.2', charee_boundary, lambda x: [] if (np.isfinite(x[0]) and x[0] > 0) else ['non-positive boundary'], heavy=True)
+
+    def charee_range(nq, s):
+        m = nq.entangle.AutodiffCHAREE((2, 2), num_state=3)
+        mark_torch()
+        return m.get_numerical_range(op_xx, op_zz, num_theta=3, converge_tol=1e-3, num_repeat=1, use_tqdm=False, seed=s)
+    add('AutodiffCHAREE.get_numerical_range', 'dims=(2,2),num_state=3,num_theta=3', charee_range, v_numrange, heavy=True)
+
+    def pureb_range(nq, s):
+        m = nq.entangle.PureBosonicExt(2, 2, 2)
+        mark_torch()
+        return m.get_numerical_range(op_xx, op_zz, num_theta=3, converge_tol=1e-3, num_repeat=1, use_tqdm=False, seed=s)
+    add('PureBosonicExt.get_numerical_range', 'dims=(2,2),k=2,num_theta=3', pureb_range, v_numrange, heavy=True)
+
+    psi_pp = np.ones(4, dtype=np.complex128) / 2
+    for idx in ((0,), (0, 1)):
+        def mgate(nq, s, idx=idx):
+            g = nq.sim.circuit.MeasureGate(idx, seed=s)
+            rec = []
+            for _ in range(3):   # the gate owns its generator: three shots of one gate on |++>
+                q1 = g.forward(psi_pp.copy())
+                rec.append((list(g.bitstr), np.asarray(g.probability), q1))
+            return rec
+        add('MeasureGate', 'index=%s,shots=3' % (idx,), mgate,
+            lambda x, idx=idx: [] if all(len(b) == len(idx) and abs(np.linalg.norm(q) - 1) < TOL and abs(np.sum(p) - 1) < TOL for (b, p, q) in x) else ['bad measurement record'])
     return B
+
+
+# a constructor of a torch model draws its (later overwritten) initial parameters from the global torch generator; the branch marks
+# the end of construction so that only the seeded call itself is observed
+_TORCH_BASE = [None]
+
+
+class TorchReseedSeam:
+    """records every re-seeding / state restore of the global torch generator while it is installed (the calls are executed)"""
+    NAMES = [('torch', 'manual_seed'), ('torch', 'seed'), ('torch', 'set_rng_state'), ('torch.random', 'manual_seed'), ('torch.random', 'seed'),
+             ('torch.random', 'set_rng_state')]
+
+    def __enter__(self):
+        import importlib
+        self.hits = []
+        self.saved = []
+        for modname, attr in self.NAMES:
+            mod = importlib.import_module(modname)
+            orig = getattr(mod, attr)
+            self.saved.append((mod, attr, orig))
+
+            def wrapper(*a, _orig=orig, _w='%s.%s' % (modname, attr), **k):
+                if _w not in self.hits:
+                    self.hits.append(_w)
+                return _orig(*a, **k)
+            setattr(mod, attr, wrapper)
+        return self
+
+    def __exit__(self, *exc):
+        for mod, attr, orig in self.saved:
+            setattr(mod, attr, orig)
+        return False
+
+
+def mark_torch():
+    import torch
+    _TORCH_BASE[0] = torch.get_rng_state()
 
 
 _BR = None
@@ -602,12 +758,27 @@ def build_cases(tier, seed):
         for nz in (False, True):
             for no_ in (False, True):
                 cases.append({'kind': 'f2stub', 'size': list(size), 'not_zero': nz, 'not_one': no_})
+    # objects that own a generator (MeasureGate, CliffordCircuit): two live objects used interleaved
+    for obj in ('MeasureGate', 'CliffordCircuit'):
+        for s0 in (SEEDS if tier == 'quick' else SEEDS + [2, 3, 12345, 2**31 - 1]):
+            for ds in (0, 1):
+                cases.append({'kind': 'interleave', 'object': obj, 'seed_a': s0, 'seed_b': s0 + ds, 'shots': 3})
+    # environment answers for the continuous draws of the sphere / ball generators and for the gate choices of CliffordCircuit
+    for fname in ('rand_n_sphere', 'rand_n_ball'):
+        for dim in (1, 2, 3):
+            for size in (None, 2, (2, 2)):
+                cases.append({'kind': 'ballstub', 'function': fname, 'dim': dim, 'size': size if not isinstance(size, tuple) else list(size)})
+    cases.append({'kind': 'cliffstub'})
     hl = 2
     info = {'branches': len(B), 'functions': len({b[0] for b in B}), 'seeds': SEEDS if tier == 'quick' else SEEDS + [2, 3, 12345, 2**31 - 1],
             'events': EVENTS, 'history_length': hl, 'histories_per_branch_seed': len(histories(hl)),
             'heavy_history_length': 1, 'exhaustive': True,
             'f2stub': 'rand_F2 under a stub generator: every sequence of <= 3 draws over all 2^n bit patterns (n <= 4), all four flag combinations',
-            'note': 'every (branch, seed, history) of the stated menu is executed; heavy APIs (optimiser, LP solver) use histories of length <= 1 and one seed'}
+            'ballstub': 'rand_n_sphere / rand_n_ball under a generator whose normal() and uniform() are harness answers: directions from a menu of 4 per dim, radii u from a menu of 5, all u-tuples for <= 4 points; point = g/|g| * u**(1/dim)',
+            'cliffstub': 'CliffordCircuit(seed=stub): program one(0) one(2) two(0,1) two(2,1), all 6*6*3*3 answer tuples: recorded gates and qubit indices',
+            'interleave': 'two live objects owning a generator (equal / different int seeds), 3 uses each, all C(6,3)=20 interleavings: each stream equals the stream of the object used alone',
+            'note': 'every (branch, seed, history) of the stated menu is executed; heavy APIs (optimiser, LP solver) use histories of length <= 1 and one seed; boundary-value branches (light) use histories of length <= 1 in the quick tier',
+            'light_branches': sum(1 for b in B if b[6])}
     return cases, info
 
 
@@ -659,16 +830,172 @@ def run_f2stub(case, out, env):
     out.sample = {'kind': 'f2stub', 'size': list(size), 'not_zero': nz, 'not_one': no_, 'patterns': len(pats)}
 
 
+class _ContinuousStub(np.random.Generator):
+    """generator whose normal() / uniform() draws are harness answers (shape checked against the request)"""
+
+    def __init__(self, normals, uniforms):
+        super().__init__(np.random.PCG64(12345))
+        self._normals, self._uniforms, self.log = normals, uniforms, []
+
+    def normal(self, loc=0.0, scale=1.0, size=None):
+        self.log.append(('normal', loc, scale, size))
+        return np.array(self._normals, dtype=np.float64).reshape(size)
+
+    def uniform(self, low=0.0, high=1.0, size=None):
+        self.log.append(('uniform', low, high, size))
+        return np.array(self._uniforms, dtype=np.float64).reshape(size)
+
+
+DIRECTIONS = {1: [[1.0], [-2.5], [1e-8], [-1.0]],
+              2: [[1.0, 0.0], [0.0, -3.0], [1.0, 1.0], [-1e-3, 2.0]],
+              3: [[1.0, 0.0, 0.0], [1.0, 1.0, 1.0], [0.5, -2.0, 1e-8], [0.0, 0.0, -1.0]]}
+RADII_U = [0.0, 1e-300, 0.125, 0.5, 1.0 - 2.0**-53]
+
+
+def run_ballstub(case, out, env):
+    """the point returned for normal draw g and uniform draw u is g/|g| (sphere) resp. g/|g| * u**(1/dim) (uniform in the ball:
+    P(r <= t) = t**dim); tolerance 8 eps relative: norm (dim+1)/2 ulp, division, pow and product <= 1 ulp each, dim <= 3"""
+    import numqi
+    fname, dim = case['function'], case['dim']
+    size = case['size'] if not isinstance(case['size'], list) else tuple(case['size'])
+    fn = getattr(numqi.random, fname)
+    n_pt = 1 if size is None else int(np.prod(size))
+    shp = (dim,) if size is None else ((size,) if isinstance(size, int) else size) + (dim,)
+    dirs = DIRECTIONS[dim]
+    ball = fname == 'rand_n_ball'
+    eps = np.finfo(np.float64).eps
+    for offset in range(len(dirs)):
+        for us in (itertools.product(RADII_U, repeat=n_pt) if ball else [None]):
+            g = np.array([dirs[(offset + i) % len(dirs)] for i in range(n_pt)], dtype=np.float64)
+            stub = _ContinuousStub(g, us)
+            out.state()
+            out.trans()
+            try:
+                r = fn(dim, size=size, seed=stub)
+            except Exception as e:
+                out.violation('%s/stub/raises_%s' % (fname, type(e).__name__), '%s(dim=%d, size=%s) with harness answers raised %r' % (fname, dim, size, e), normals=g.tolist(), uniforms=us)
+                return
+            expect = g / np.sqrt((g * g).sum(axis=1, keepdims=True))
+            if ball:
+                expect = expect * (np.array(us, dtype=np.float64) ** (1.0 / dim))[:, None]
+            expect = expect.reshape(shp)
+            bad = None
+            if not isinstance(r, np.ndarray) or r.shape != shp:
+                bad = 'shape %s expected %s' % (getattr(r, 'shape', None), shp)
+            elif not np.all(np.abs(r - expect) <= 8 * eps * np.abs(expect)):
+                bad = 'point %s, expected direction * u**(1/dim) = %s' % (r.tolist(), expect.tolist())
+            if bad:
+                out.violation('%s/stub/invalid_object' % fname, '%s(dim=%d, size=%s) with normal draws %s and uniform draws %s: %s' % (fname, dim, size, g.tolist(), us, bad),
+                              normals=g.tolist(), uniforms=us)
+                return
+            out.outcome((fname, dim, shp, core.digest(canon(r))), nontrivial=True)
+            out.trace()
+    out.sample = {'kind': 'ballstub', 'function': fname, 'dim': dim, 'size': case['size'], 'directions': len(dirs), 'radii': RADII_U if ball else None}
+
+
+def run_cliffstub(case, out, env):
+    """every answer of the generator to random_one_qubit_gate / random_two_qubit_gate: the recorded gate is the chosen one on the requested
+    qubits in the requested order; the identity records nothing"""
+    import numqi
+    cls = numqi.sim.CliffordCircuit
+    one, two = list(cls._single_gate_list), list(cls._two_qubit_gate_list)
+    if sorted(one) != sorted(['I', 'X', 'Y', 'Z', 'H', 'S']) or sorted(two) != ['CX', 'CY', 'CZ']:
+        out.violation('CliffordCircuit/stub/gate_menu', 'gate menus changed: %s %s' % (one, two))
+        return
+    program = [('one', (0,)), ('one', (2,)), ('two', (0, 1)), ('two', (2, 1))]
+    for ans in itertools.product(range(6), range(6), range(3), range(3)):
+        g = seams.StubGenerator([int(a) for a in ans])
+        c = cls(seed=g)
+        out.state()
+        out.trans(len(program))
+        expect = []
+        for (k, idx), a in zip(program, ans):
+            if k == 'one':
+                c.random_one_qubit_gate(*idx)
+                if one[a] != 'I':
+                    expect.append((one[a],) + idx)
+            else:
+                c.random_two_qubit_gate(*idx)
+                expect.append((two[a],) + idx)
+        got = [tuple(x) for x in c.gate_index_list]
+        draws = [(x[0], x[1], x[2]) for x in g.log]
+        if got != expect or draws != [('integers', 0, 6), ('integers', 0, 6), ('integers', 0, 3), ('integers', 0, 3)]:
+            out.violation('CliffordCircuit/stub/recorded_gates', 'generator answers %s for the program %s: recorded %s, expected %s (draws %s)' % (list(ans), program, got, expect, draws),
+                          answers=list(ans))
+            return
+        out.outcome(('cliffstub', tuple(got)), nontrivial=len(got) == 4)
+        out.trace()
+    out.sample = {'kind': 'cliffstub', 'program': [list(map(str, p)) for p in program], 'answer_tuples': 324}
+
+
+def run_interleave(case, out, env):
+    """two objects that own their generator, built from int seeds and used interleaved: the stream of each object is a function of
+    its own seed and its own use count only (no generator shared through the class, a module global or a per-seed cache)"""
+    import numqi
+    kind, sa, sb, n = case['object'], case['seed_a'], case['seed_b'], case['shots']
+    psi = np.ones(4, dtype=np.complex128) / 2
+
+    def make(seed):
+        return numqi.sim.circuit.MeasureGate((0, 1), seed=seed) if kind == 'MeasureGate' else numqi.sim.CliffordCircuit(seed=seed)
+
+    def use(o, k):
+        if kind == 'MeasureGate':
+            q1 = o.forward(psi.copy())
+            return (tuple(int(b) for b in o.bitstr), canon(np.asarray(o.probability)), canon(q1))
+        before = len(o.gate_index_list)
+        if k % 2 == 0:
+            o.random_one_qubit_gate(k)
+        else:
+            o.random_two_qubit_gate(k, k + 1)
+        return tuple(tuple(g) for g in o.gate_index_list[before:])
+
+    def solo(seed):
+        o = make(seed)
+        return [use(o, k) for k in range(n)]
+    with seams.EntropySeam(0) as es:
+        ref_a, ref_b = solo(sa), solo(sb)
+        for pos_a in itertools.combinations(range(2 * n), n):
+            a, b = make(sa), make(sb)
+            got_a, got_b = [], []
+            for t in range(2 * n):
+                if t in pos_a:
+                    got_a.append(use(a, len(got_a)))
+                else:
+                    got_b.append(use(b, len(got_b)))
+            out.state()
+            out.trans(2 * n)
+            out.trace()
+            if got_a != ref_a or got_b != ref_b:
+                out.violation('%s/interleaved_objects/stream_depends_on_other_object' % kind,
+                              'two %s objects (seeds %d, %d) used interleaved (object a at steps %s of %d): the stream of %s differs from the same object used alone'
+                              % (kind, sa, sb, list(pos_a), 2 * n, 'a' if got_a != ref_a else 'b'), seed_a=sa, seed_b=sb, positions_a=list(pos_a))
+                break
+            out.outcome((kind, sa, sb, core.digest(('seq', tuple(canon(list(x)) for x in got_a + got_b)))), nontrivial=len(set(map(repr, got_a))) > 1)
+    if es.hits:
+        out.violation('%s/unseeded_generator_in_seeded_call' % kind, '%s(seed=int) constructed an unseeded generator at %s' % (kind, sorted({h[1] for h in es.hits})), seed_a=sa)
+    if sa == sb and ref_a != ref_b:
+        out.violation('%s/not_reproducible' % kind, 'two %s objects built from seed %d produce different streams' % (kind, sa), seed=sa)
+    out.sample = {'kind': 'interleave', 'object': kind, 'seeds': [sa, sb], 'shots': n, 'interleavings': 20}
+
+
 def run_case(case, out, env):
     import numqi
     import torch
     if case['kind'] == 'f2stub':
         return run_f2stub(case, out, env)
-    name, label, fn, valid, heavy = get_branches()[case['index']]
+    if case['kind'] == 'interleave':
+        return run_interleave(case, out, env)
+    if case['kind'] == 'ballstub':
+        return run_ballstub(case, out, env)
+    if case['kind'] == 'cliffstub':
+        return run_cliffstub(case, out, env)
+    name, label, fn, valid, heavy, cross, light = get_branches()[case['index']]
     seeds = SEEDS if env.tier == 'quick' else SEEDS + [2, 3, 12345, 2**31 - 1]
     hs = histories(2)
     if heavy:
         seeds = seeds[:1] if env.tier == 'quick' else seeds[:2]
+        hs = histories(1)
+    elif light and env.tier == 'quick':
         hs = histories(1)
     site = name
     key_b = '%s[%s]' % (name, label)
@@ -677,10 +1004,19 @@ def run_case(case, out, env):
         st_np = np.random.get_state()
         st_py = random.getstate()
         # uninitialised memory (np.empty ...) is answered with a different fill in the first and in the second call
-        with seams.EntropySeam(stream) as es, seams.UninitSeam(fill=1.5e10 if stream == 0 else -3.25e7):
+        mark_torch()
+        with seams.EntropySeam(stream) as es, seams.UninitSeam(fill=1.5e10 if stream == 0 else -3.25e7), TorchReseedSeam() as ts:
             with np.errstate(all='ignore'):
                 r = fn(numqi, seed)
         hits = list(es.hits)
+        # the global torch generator: re-seeding / restoring it inside a seeded call replaces the user's stream (a hit by itself);
+        # merely advancing it is recorded (model constructors draw initial parameters that the seeded optimiser overwrites - the
+        # histories with torch events show that the result does not depend on them)
+        if ts.hits:
+            out.violation('%s/reseeds_global_torch_generator' % site, '%s(seed=%s) called %s: the user\'s global torch stream is replaced by a seeded call' % (key_b, seed if isinstance(seed, (int, np.integer)) else '<Generator>', ts.hits),
+                          branch=label)
+        if not ts.hits and not torch.equal(_TORCH_BASE[0], torch.get_rng_state()):
+            out.count('global_torch_generator_advanced[%s]' % name)
         # the legacy global generators are part of 'what other random calls happened in between': a seeded call must not read them
         st_np2 = np.random.get_state()
         if st_np[0] != st_np2[0] or not np.array_equal(st_np[1], st_np2[1]) or st_np[2:] != st_np2[2:]:
@@ -714,7 +1050,26 @@ def run_case(case, out, env):
             fails = ['validity predicate could not read the object: %r' % (e,)]
         if fails:
             out.violation('%s/invalid_object' % site, '%s(seed=%d) returned an invalid object: %s' % (key_b, seed, '; '.join(fails[:3])), branch=label, seed=seed)
+        if cross is not None:
+            try:
+                with seams.EntropySeam(0):
+                    xf = cross(numqi, seed, r0)
+            except Exception as e:
+                xf = ['cross-option call failed: %r' % (e,)]
+            out.trans()
+            if xf:
+                out.violation('%s/cross_option_mismatch' % site, '%s(seed=%d) is inconsistent with the same call under another option value: %s' % (key_b, seed, '; '.join(xf[:3])),
+                              branch=label, seed=seed)
         out.outcome((key_b, seed, core.digest(c0)), nontrivial=True)
+        # (5) seed forms: the numpy integer scalar of the same value selects the same stream as the python int
+        try:
+            r_np, hits_np = call(np.int64(seed), 1)
+            out.trans()
+            if canon(r_np) != c0 or hits_np:
+                out.violation('%s/seed_form/np_int64_differs_from_int' % site, '%s: seed=np.int64(%d) and seed=%d give different results%s' % (key_b, seed, seed, ' (unseeded draws)' if hits_np else ''),
+                              branch=label, seed=seed)
+        except Exception as e:
+            out.violation('%s/seed_form/np_int64_raises_%s' % (site, type(e).__name__), '%s(seed=np.int64(%d)) raised %r' % (key_b, seed, e), branch=label, seed=seed)
         # (1) reproducibility under every intervening history
         n_bad = 0
         for h in hs:
@@ -733,8 +1088,32 @@ def run_case(case, out, env):
                                   '%s(seed=%d) differs between two calls with the same seed (intervening history %s; fresh entropy stream differs between the calls)' % (key_b, seed, list(h)),
                                   branch=label, seed=seed, history=list(h))
             out.trace()
+    # (5) an integer seed beyond 64 bits (python ints are unbounded; numpy's SeedSequence and random.Random accept them): reproducible and valid
+    big = 2**70 + 3
+    try:
+        seams.reset_global_rngs(0)
+        rb0, hb0 = call(big, 0)
+        with seams.EntropySeam(5):
+            apply_event('np.rand', numqi, fn, 0)
+            apply_event('torch.rand', numqi, fn, 0)
+        rb1, hb1 = call(big, 1)
+        out.trans(2)
+        out.state()
+        if canon(rb0) != canon(rb1) or hb0 or hb1:
+            out.violation('%s/seed_form/wide_int_not_reproducible' % site, '%s(seed=2**70+3) differs between two calls%s' % (key_b, ' (unseeded draws)' if (hb0 or hb1) else ''), branch=label)
+        try:
+            fails = valid(rb0)
+        except Exception as e:
+            fails = ['validity predicate could not read the object: %r' % (e,)]
+        if fails:
+            out.violation('%s/invalid_object' % site, '%s(seed=2**70+3) returned an invalid object: %s' % (key_b, '; '.join(fails[:3])), branch=label, seed=big)
+    except (TypeError, ValueError, OverflowError) as e:
+        out.count('wide_int_seed_rejected[%s:%s]' % (name, type(e).__name__))
+    except Exception as e:
+        out.violation('%s/seed_form/wide_int_raises_%s' % (site, type(e).__name__), '%s(seed=2**70+3) raised %r' % (key_b, e), branch=label)
     # (3) a Generator passed as seed is consumed: consecutive calls differ, and the pair is reproducible
-    if not heavy and name not in ('Circuit.measure', 'CliffordCircuit.random_gates', 'get_purification') and 'rand_F2' not in name:
+    # (audit wave: also the heavy APIs, Circuit.measure, MeasureGate, CliffordCircuit(seed=Generator) and get_purification)
+    if 'rand_F2' not in name:
         try:
             def pair(sd):
                 if name in ('rand_SpF2', 'rand_Clifford_group'):
@@ -750,7 +1129,7 @@ def run_case(case, out, env):
             out.trans(4)
             if (a, b) != (a2, b2):
                 out.violation('%s/generator_seed_not_reproducible' % site, '%s: threading the same generator twice gives different results' % key_b, branch=label)
-            deterministic_by_design = (name == 'get_purification' and 'None' in label) or (name == 'measure_quantum_vector')
+            deterministic_by_design = (name == 'get_purification' and 'None' in label) or (name == 'measure_quantum_vector') or (name == 'check_UD_is_UD')
             if a == b and not deterministic_by_design and not (name == 'rand_haar_state' and 'dim=1' in label) and not (name == 'rand_haar_unitary' and 'dim=1' in label) \
                     and not (name == 'rand_n_sphere' and 'dim=1' in label):
                 out.count('generator_not_advanced[%s]' % name)
